@@ -204,11 +204,14 @@ def c10_documents(run):
             except BaseException as ex:
                 acc.fail(label, f"parse() raised {type(ex).__name__} (not in the schema-parse family)")
         big = 10 ** 5000
-        for S in [{"maximum": 1}, {"type": "integer", "minimum": 0}, {"const": 1}, {"enum": [1]}, {"type": "string"}, {"multipleOf": 3}, {"type": "number"},
+        for S in [{"maximum": 1}, {"type": "integer", "minimum": 0}, {"const": 1}, {"enum": [1]}, {"type": "string"}, {"multipleOf": 3}, {"type": "number"}, {"type": ["number", "null"]}, {"items": {"type": "number"}},
+                  {"properties": {"a": {"type": "number"}}}, {"anyOf": [{"type": "number"}, {"type": "string"}]}, {"type": "number", "maximum": 1},
                   {"oneOf": [{"type": "integer"}, {"type": "number"}]}, {"oneOf": [{}, {}]}, {"not": {"type": "integer"}}, {"not": {}},
                   {"anyOf": [{"type": "string"}, {"maximum": 1}]}, {"allOf": [{"type": "integer"}, {"maximum": 1}]},
                   {"properties": {"a": {"oneOf": [{"type": "integer"}, {"minimum": 0}]}}}, {"items": {"not": {"minimum": 0}}}]:
-            for label, v in (("10**5000", big), ("-10**5000", -big), ("[10**5000]", [big]), ("{'a': 10**5000}", {"a": big})):
+            edge = [("2**1024-1", 2 ** 1024 - 1), ("-(2**1024-1)", -(2 ** 1024 - 1)), ("2**1024-2**970", 2 ** 1024 - 2 ** 970), ("2**1024-2**970-1", 2 ** 1024 - 2 ** 970 - 1),
+                    ("2**1024", 2 ** 1024), ("2**1023", 2 ** 1023), ("[2**1024-1]", [2 ** 1024 - 1]), ("{'a': 2**1024-1}", {"a": 2 ** 1024 - 1}), ("1.7976931348623157e308", 1.7976931348623157e308)]
+            for label, v in [("10**5000", big), ("-10**5000", -big), ("[10**5000]", [big]), ("{'a': 10**5000}", {"a": big})] + edge:
                 key = f"{jkey(S)} <- {label}"
                 acc.case(key)
                 E = parse_element(copy.deepcopy(S))
@@ -558,6 +561,14 @@ C09_DOCS = [
     {"type": "object", "title": "Deps", "dependencies": {"a": {"type": "object", "title": "D1"}, "b": ["a"]},
      "patternProperties": {"^x": {"type": "object", "title": "D1", "required": ["q"]}},
      "additionalProperties": {"type": "object", "title": "D2"}, "propertyNames": {"maxLength": 3}},
+    # several required names that are not declared properties, several pattern / dependency keys, many sibling classes and
+    # definitions: every place where an ordering could come from a set or from hashing
+    {"type": "object", "title": "Req", "required": ["zeta", "alpha", "mid", "beta", "omega"], "properties": {"mid": {"type": "string"}},
+     "patternProperties": {"^z": {"type": "integer"}, "^a": {"type": "string"}, "q$": {}, "^m": {"type": "object", "title": "Pm"}},
+     "dependencies": {"zeta": ["alpha"], "alpha": {"type": "object", "title": "Da"}, "mid": ["beta", "omega"]}},
+    {"type": "object", "title": "Many", "properties": {n: {"type": "object", "title": n.capitalize(), "properties": {"v": {"type": "string"}}, "required": ["w", "u", "v"]}
+                                                        for n in ["echo", "alpha", "delta", "charlie", "bravo"]},
+     "definitions": {n: {"type": "object", "title": "Def" + n, "required": ["b", "a"]} for n in ["x", "m", "a"]}},
 ]
 
 
